@@ -18,6 +18,8 @@ import Biogo.Proofs.ContFrame
 import Biogo.Proofs.ContAln
 import Biogo.Proofs.ContSepWorld
 import Biogo.Proofs.ContRow
+import Biogo.Proofs.ContModelObs
+import Biogo.Proofs.ContModelObs05
 
 namespace Biogo.Properties.C05
 open Biogo.Alphabet Biogo.Containers Biogo.Go
@@ -508,5 +510,37 @@ theorem reverse_spec_alignment (h : Cells) (a : Aln) (r : Nat) :
   · have hq : a.reverse.q = a.q := rfl
     simp only [Aln.rowLetters, h1, hq, List.map_reverse]
   · simp only [Aln.«end», h1, List.length_reverse]; rfl
+
+/-! ### the model satisfies the declarative statements the executable laws stand for
+
+`Laws.RevCompSpec`, `Laws.RowRevCompSpec`, `Laws.FrameSpec` (Proofs/ContLawsSound.lean) are what
+`lawRevComp`, `lawRowRevComp`, `lawFrame` are proved to imply of the implementation's
+observations (`C05_laws.c05_verdict_sound`).  Here they are proved of the model's own
+observations: one proposition, a theorem on the model's side and a sound executable check on
+the implementation's side. -/
+
+/-- **revcomp_spec and multi_revcomp_mirror, observation level**: in a well-formed world, for an
+    object of any kind (linear, column-stored alignment, multi, set), the observation after
+    `RevComp` is related to the observation before by `RevCompSpec`: every row reads as the
+    reverse complement with qualities travelling and its name kept; strands negated; a
+    column-stored alignment keeps its coordinates, the rows of a multi are mirrored about its
+    span which is kept, the rows of the other kinds keep their coordinates. -/
+theorem revcomp_on_observations (cx : Ctx) (w : World) (hw : WorldWF w) (k : Nat) (o : Obj)
+    (hk : w.objs[k]? = some o) (hrange : ∀ m, o = .multi m → m.InRange) :
+    ∃ b a, (w.view cx)[k]? = some b ∧ ((apply cx w (.revComp k)).1.view cx)[k]? = some a ∧
+      Laws.RevCompSpec cx.comp b a :=
+  model_revcomp cx w hw k o hk hrange
+
+/-- `Row(r).RevComp()` of a well-formed column-stored alignment, observation level -/
+theorem row_revcomp_on_observations (cx : Ctx) (h : Cells) (a : Aln) (n : Nat) (hc : ColsCapWF h n a.cols)
+    (r : Nat) (hr : r < a.rows) :
+    Laws.RowRevCompSpec cx.comp (viewObj cx h (.aln a))
+      (viewObj cx (a.rowRevComp cx h r).1 (.aln (a.rowRevComp cx h r).2)) r :=
+  model_rowRevComp_aln cx h a n hc r hr
+
+/-- **clone_deep as a frame statement, observation level** -/
+theorem frame_on_observations (cx : Ctx) (w : World) (hw : WorldWF w) (op : Op) :
+    Laws.FrameSpec (w.view cx) ((apply cx w op).1.view cx) op.written :=
+  model_frame cx w hw op
 
 end Biogo.Properties.C05
